@@ -732,11 +732,16 @@ func Input(l *InputSharedVars, g *GlobalVarsMain, hPath *HFilePath, driConfig *C
 					}
 					// slot 0 is the harvest residue of the initial crop, not a scheduled fertilisation:
 					// a fertilisation dated on the start day keeps its date, both are applied on the same day
+					// the second of two fertilisations scheduled for the same day moves one day on; the comparison uses the
+					// scheduled date of the preceding event, not its moved one, so an event on the following day keeps its date
+					prev := g.ZTDG[1]
 					for i := 2; i <= NDu; i++ {
 						index := i - 1
-						if g.ZTDG[index+1] == g.ZTDG[index] {
+						orig := g.ZTDG[index+1]
+						if g.ZTDG[index+1] == prev {
 							g.ZTDG[index+1] = g.ZTDG[index+1] + 1
 						}
+						prev = orig
 					}
 					for i := 1; i < NDu; i++ {
 						dueng(i, g, l, hPath)
